@@ -85,16 +85,17 @@ if not os.path.exists(os.path.join(COQ, "gen", "MetaCheckedIn.v")):
 
 def run_pipes(cmds, timeout=3000):
     outs = run_pipeline(cmds, timeout=timeout)
-    mism, stats, which = [], {}, []
+    mism, stats, which, diffs = [], {}, [], []
     for (rc, out), c in zip(outs, cmds):
         m, s, other = parse_runner_output(out)
         if rc != 0 or "mismatches" not in s or "evaluations" not in s:
             mism.append({"kind": "harness", "case": c, "impl": "pipeline `%s` failed rc=%s" % (c[:200], rc), "expected": out[-800:]})
         mism += m
         which += [l.split("\t", 1)[1] for l in other if l.startswith("WHICH\t")]
+        diffs += [l.split("\t", 1)[1] for l in other if l.startswith("DIFF\t")]
         for k, v in s.items():
             stats[k] = stats.get(k, 0) + v if isinstance(v, int) else v
-    return mism, stats, which
+    return mism, stats, which, diffs
 
 
 def run(tier, seed, replay=None):
@@ -165,7 +166,26 @@ def run(tier, seed, replay=None):
             res.violation("a fresh #[derive(Parser)] of meta/src/grammar.pest does not compile", {"theorem_or_correspondence": "C14 fresh parser (build)", "log": fout[-3000:]}, no_failing_input=True)
     for i, sd in enumerate(seeds):
         cmds.append("%s diff %s %d %d %s %s| %s %d" % (hbin, REPO, count, sd, "" if i == 0 else "nofixed", ("| %s " % fresh) if fresh else "", runner, maxmodel))
-    mism, stats, which = run_pipes(cmds)
+    mism, stats, which, diffs = run_pipes(cmds)
+
+    # ---- targeted failing-input search: a structural / byte-level / Coq-level break without a behavioural witness so far ----
+    broken = (not regen_ok) or (not thm["ok"]) or any(m["kind"] == "model" and " at=" in m["case"] for m in mism)
+    if broken and not [m for m in mism if m["kind"] == "spec"]:
+        names = []
+        for d in diffs:
+            if d.startswith("fn "):
+                names.append(d[3:].strip())
+            elif "skip" in d:
+                names += ["WHITESPACE", "COMMENT"]
+        names = [n for i, n in enumerate(names) if n not in names[:i] and re.fullmatch(r"[A-Za-z0-9_]+", n)][:8]
+        if names:
+            tl = 4 if tier == "quick" else 5
+            m2, s2, _, _ = run_pipes(["%s target %s %s %d %s| %s %d" % (hbin, REPO, ",".join(names), tl, ("| %s " % fresh) if fresh else "", runner, maxmodel)])
+            log("C14: targeted search on the differing rules %s: %d texts (all strings up to length %d over the rules' literal alphabet, alone and in %s), %d disagreements" % (
+                ", ".join(names), s2.get("cases", 0), tl, "minimal grammar contexts", s2.get("spec_differences", 0)))
+            mism += [m for m in m2 if m["kind"] in ("spec", "harness")]
+            for k in ("cases", "evaluations", "distinct_nontrivial", "spec_differences", "modelled", "fresh_compared"):
+                stats[k] = stats.get(k, 0) + s2.get(k, 0)
 
     spec_m = [m for m in mism if m["kind"] == "spec"]
     model_m = [m for m in mism if m["kind"] == "model"]
